@@ -49,7 +49,7 @@ D_GLOBALS = {'FRAME_KIND': 'g_frame_kind', 'G_OBS': 'g_obs', 'G_NOBS': 'g_nobs',
              'G_NMV': 'g_nmv', 'G_OTHER_EXC': 'g_other_exc', 'G_CTOR': 'g_ctor', 'G_DTOR': 'g_dtor', 'G_ARG_SRC': 'g_arg_src', 'G_ARG_VAL': 'g_arg_val', 'G_NARGS': 'g_nargs'}
 D_LIBS = ['rt_core.c', 'rt_atomic_seq.c', 'model_atomic_ptr_api.c', 'model_dq_drive.c', 'model_heap_frames.c', 'model_mutex.c', 'model_vec_pool.c', 'model_ptrq_ring.c']
 AGG_FRAME = {'void': 'S__ZN5cocls20generator_aggregatorIivEENS_9generatorIT_T0_EESt6vectorIS4_SaIS4_EE_Frame', 'int': 'S__ZN5cocls20generator_aggregatorIiiEENS_9generatorIT_T0_EESt6vectorIS4_SaIS4_EE_Frame'}
-def drive(name, kind, what, arg='void', defines=(), unwind=10, timeout=200, **kw):
+def drive(name, kind, what, arg='void', defines=(), unwind=10, timeout=600, **kw):
     G, CB, N = VAR[arg]
     root = 'drive_aggr_arg' if arg == 'int' else 'drive_aggr'
     frames = 'CV_FRAME_KINDS ' + ('X(3, S_src_arg_Frame) X(5, %s)' % AGG_FRAME['int'] if arg == 'int' else 'X(1, S_src_vals_Frame) X(2, S_src_throw_Frame) X(4, %s)' % AGG_FRAME['void'])
@@ -61,7 +61,80 @@ def drive(name, kind, what, arg='void', defines=(), unwind=10, timeout=200, **kw
              defines=['CV_NO_HEAP_PRIMS 1', frames, 'DRIVE_%s 1' % kind] + list(defines), unwind=unwind, object_bits=12, kind='bounded', timeout=timeout, bounded=what, under_contract=[])
     d.update(kw)
     return d
+def sh(n, style=0, stop=-1, src=()):
+    """one shape: src = list of k (int: yields k values and ends) or 'tK' (yields K values, then throws)"""
+    f = []
+    for x in list(src) + [0] * (3 - len(src)):
+        f += [1, int(x[1:])] if isinstance(x, str) else [0, x]
+    return '{%d,%d,%d,%s}' % (n, style, stop, ','.join(str(v) for v in f))
+def shapes(*l): return 'AGG_SHAPES ' + ', '.join(l)
+def text(l): return ', '.join(l)
 UNITS = [
-    drive('aggr_n2_next', 'aggr', '2 synchronous sources, every combination of lengths 0..2, symbolic values; consumer: next()/value()', defines=['AGG_N 2', 'AGG_STYLE 0']),
+    drive('n01_next', 'aggr', 'no source; 1 synchronous source of length 0, 1, 2; symbolic values; consumer: next()/value()',
+          defines=[shapes(sh(0), sh(1, src=[0]), sh(1, src=[1]), sh(1, src=[2]))]),
+    drive('n2_next_a', 'aggr', '2 synchronous sources, lengths (0,0) (0,1) (0,2) (1,0); next()/value()', defines=[shapes(sh(2, src=[0, 0]), sh(2, src=[0, 1]), sh(2, src=[0, 2]), sh(2, src=[1, 0]))]),
+    drive('n2_next_b', 'aggr', '2 synchronous sources, lengths (1,1) (1,2) (2,0); next()/value()', defines=[shapes(sh(2, src=[1, 1]), sh(2, src=[1, 2]), sh(2, src=[2, 0]))]),
+    drive('n2_next_c', 'aggr', '2 synchronous sources, lengths (2,1) (2,2); next()/value()', defines=[shapes(sh(2, src=[2, 1]), sh(2, src=[2, 2]))]),
+    drive('n3_next_a', 'aggr', '3 synchronous sources, lengths (2,2,2) (0,0,0); next()/value()', defines=[shapes(sh(3, src=[2, 2, 2]), sh(3, src=[0, 0, 0]))], unwind=12),
+    drive('n3_next_b', 'aggr', '3 synchronous sources, lengths (0,1,2) (2,0,1) (1,2,0); next()/value()', defines=[shapes(sh(3, src=[0, 1, 2]), sh(3, src=[2, 0, 1]), sh(3, src=[1, 2, 0]))], unwind=12),
+    drive('future', 'aggr', 'consumer by call-to-future: no source; 2 sources (1,2) (2,0); 3 sources (1,1,1)', defines=[shapes(sh(0, 1), sh(2, 1, src=[1, 2]), sh(2, 1, src=[2, 0]), sh(3, 1, src=[1, 1, 1]))], unwind=12),
+    drive('throw_n1', 'aggr', '1 source that throws a symbolic int after 0, 1, 2 values', defines=[shapes(sh(1, src=['t0']), sh(1, src=['t1']), sh(1, src=['t2']))]),
+    drive('throw_n2_a', 'aggr', '2 sources, the first throws after 0, 1, 2 values, the other yields 2', defines=[shapes(sh(2, src=['t0', 2]), sh(2, src=['t1', 2]), sh(2, src=['t2', 2]))]),
+    drive('throw_n2_b', 'aggr', '2 sources, the second throws after 0, 1, 2 values, the other yields 2 / 1 / 0', defines=[shapes(sh(2, src=[2, 't0']), sh(2, src=[1, 't1']), sh(2, src=[0, 't2']))]),
+    drive('throw_n3', 'aggr', '3 sources, one throws: (2,t1,1) (t2,0,2) by next()/value(), (1,1,t0) by call-to-future', defines=[shapes(sh(3, src=[2, 't1', 1]), sh(3, src=['t2', 0, 2]), sh(3, 1, src=[1, 1, 't0']))], unwind=12),
+    drive('early_n2', 'aggr', '2 sources of length 2, aggregate destroyed after 0..4 values (never started / parked at a yield)', defines=[shapes(*[sh(2, stop=t, src=[2, 2]) for t in range(5)])]),
+    drive('early_n13', 'aggr', '1 source of length 2 destroyed after 1, 2 values; 3 sources (2,2,2) destroyed after 1 and after 4 values; 2 sources (1,2) after 2 values by call-to-future',
+          defines=[shapes(sh(1, stop=1, src=[2]), sh(1, stop=2, src=[2]), sh(3, stop=1, src=[2, 2, 2]), sh(3, stop=4, src=[2, 2, 2]), sh(2, 1, stop=2, src=[1, 2]))], unwind=12),
+    drive('arg_n1', 'aggr_arg', 'generator_aggregator<int,int>: 1 source with argument, length 0, 1, 2; next(arg)/value(); one shape by call-to-future', arg='int',
+          defines=['AGG_SHAPES {1,0,0,0}, {1,0,1,0}, {1,0,2,0}, {1,1,2,0}']),
+    drive('arg_n2', 'aggr_arg', 'generator_aggregator<int,int>: 2 sources with argument, lengths (1,2) (2,1) (2,2) (0,1); next(arg)/value()', arg='int',
+          defines=['AGG_SHAPES {2,0,1,2}, {2,0,2,1}, {2,0,2,2}, {2,0,0,1}'], unwind=12),
 ]
-META = dict(level='other', level_text='TODO', level_note='TODO', technique='TODO', trusted_base=[], assumptions=[], explanation='')
+
+# ---------------------------------------------------------------------------------------------------------------- contract units (helpers)
+def helper(name, alias, rx, arg='void', uses=(), fnptr=None, loop=False, **kw):
+    G, CB, N = VAR[arg]
+    Q = 'cocls::queue<%s*, cocls::primitives::std_queue, cocls::primitives::single_item_queue, std::mutex>' % CB
+    FG = 'cocls::future<%s*>' % CB
+    A = {'aq_push': r'^cocls::suspend_point<bool> ' + esc(Q) + r'::push<', 'aq_pop': '^' + esc(Q) + r'::pop\(\)$', 'sp_suspend_now': r'^cocls::suspend_point<void>::suspend_now\(\)$',
+         'na_subscribe': '^' + esc(G) + r'::next_awt::subscribe\(cocls::awaiter\*\)$', 'fg_wait': '^' + esc(FG) + r'::wait\(\)$', 'fg_dtor': '^' + esc(FG) + r'::~future\(\)$'}
+    names = {alias: rx}
+    if fnptr: names['CB_RESUME_FN'] = fnptr
+    pt = {}
+    if 'aq_push' in uses: pt.update({'SPB': A['aq_push'] + '#0', 'AQ': A['aq_push'] + '#1'})
+    if 'aq_pop' in uses: pt.update({'FUTG': A['aq_pop'] + '#0', 'AQ': A['aq_pop'] + '#1'})
+    if 'na_subscribe' in uses: pt.update({'NAWT': A['na_subscribe'] + '#0'})
+    if alias == 'cb_ctor': pt.update({'AQ': rx + '#1'})
+    d = dict(name=name + ('_arg' if arg == 'int' else ''), driver=DRV, roots=[rx], names=names, names_opt={a: A[a] for a in uses}, boundary=[A[a] for a in uses] + ([fnptr] if fnptr else []),
+             types={'GCB': CB, 'CTL': 'cocls::_details::generator_aggregator_controller<int, %s>' % arg, 'GEN': G, 'PT': G + '::promise_type', 'AWT': 'cocls::awaiter', 'SP': 'cocls::suspend_point<void>'},
+             ptypes=pt, lib=['rt_core.c', 'rt_atomic_seq.c'], spec=['C14/a_spec.h', 'C14/h_a.c'], harness='h_' + name, enforce=alias, loop_contracts=loop,
+             defines=(['GEN_ARG 1'] if arg == 'int' else []), under_contract=[rx.lstrip('^').rstrip('$').replace('\\', '')], timeout=300)
+    d.update(kw)
+    return d
+def cbrx(arg): return '^' + esc(VAR[arg][1]) + r'::GenCallback\(cocls::queue<[^{}]*\)'
+HELPERS = [
+    helper('cb_resume_fn', 'cb_resume_fn', cbrx('void') + r'::\{lambda\(cocls::awaiter\*, void\*\)#1\}::__invoke\(', uses=('aq_push', 'sp_suspend_now'),
+           under_contract=['cocls::_details::GenCallback<int, void>::GenCallback(...)::{lambda(awaiter*, void*)#1} (operator() and its static thunk)']),
+    helper('cb_ctor', 'cb_ctor', cbrx('void') + '$', fnptr=cbrx('void') + r'::\{lambda\(cocls::awaiter\*, void\*\)#1\}::__invoke\(',
+           under_contract=['cocls::_details::GenCallback<int, void>::GenCallback(GenAggrQueue<int, void>&, generator<int, void>)']),
+    helper('cb_charge', 'cb_charge', '^void ' + esc(VAR['void'][1]) + r'::charge<>\(\)$', uses=('na_subscribe',)),
+    helper('cb_charge', 'cb_charge', '^void ' + esc(VAR['int'][1]) + r'::charge<int&>\(int&\)$', 'int', uses=('na_subscribe',)),
+    helper('ctl_dtor', 'ctl_dtor', r'^cocls::_details::generator_aggregator_controller<int, void>::~generator_aggregator_controller\(\)$', uses=('aq_pop', 'fg_wait', 'fg_dtor'), loop=True),
+    helper('ctl_fin', 'ctl_fin', r'^cocls::_details::generator_aggregator_controller<int, void>::fin\(\)$'),
+    helper('ctl_bool', 'ctl_bool', r'^cocls::_details::generator_aggregator_controller<int, void>::operator bool\(\) const$'),
+]
+UNITS = HELPERS + UNITS
+
+META = dict(
+    level='other',
+    level_text='BOUNDED, not a proof: the statement lives inside the coroutine body of generator_aggregator, which no contract reaches; it is decided by bounded symbolic execution of the really lowered generator_aggregator<int,void> / <int,int> coroutine (clang -O0 lowering, ir2c devirtualised resume) together with the real generator.h / queue.h / future.h / awaiter.h code, for 0..3 scripted SYNCHRONOUS sources of length <= 2 (lists of shapes per unit, see units[].bound; values symbolic in their low 24 bits, the top byte tags the yield they come from), one source may throw a symbolic exception after 0..2 values, consumer by next()/value() and by call-to-future, aggregate dropped after 0..4 values. Checked per shape: the consumer observes exactly the multiset union (every yielded value exactly once, nothing else), each source\'s values in that source\'s order, the end when and only when all sources have ended (one end indication), a source\'s exception loses no value of any source and is reported exactly once after everything else, the first argument initialises every source and each later argument reaches the source whose value was returned last, dropping the aggregate before its first activation / while parked at a yield destroys every activated source\'s locals exactly once, allocations == deallocations (frames + the two vector buffers), the aggregator never parks on queue.pop() with synchronous sources, the callback vector never reallocates. PROVED (contracts, unbounded) only for the helpers: the resume function of GenCallback pushes its own callback onto its own queue exactly once and resumes nobody; the GenCallback constructor wires queue / generator / that function; charge() asks the callback\'s own generator once with the callback as asker (argument installed first); ~generator_aggregator_controller performs exactly count-1 blocking pops of its queue for EVERY count (loop contract), fin() and operator bool keep the active-source counter.',
+    level_note='Not covered: asynchronous sources (a source suspended on another awaitable, completing on another thread or later on this thread), hence also "waits for in-flight asynchronous sources" beyond the controller contract, the single-consumer awaiter slot of cocls::queue, infinite sources, more than 3 sources or more than 2 values per source, several exceptions (only the last one is kept by the code), value types other than int. Shapes are sampled, not exhaustive for n = 3. Trusted: models of std::vector (typed pool, no growth; real element constructors/destructors), std::queue<GenCallback*> (FIFO ring), single_item_queue (obligation: stays empty), std::mutex, std::deque of the ready queue, std::atomic<T*> members, typed frame allocation.',
+    technique='bounded symbolic execution with CBMC 6.11 (unwinding assertions, every shape run with a concrete control path) of driver scenarios over the C translation of the clang-lowered generator_aggregator coroutine and everything it calls; CBMC code contracts + one loop contract via goto-instrument --dfcc for the helper members',
+    trusted_base=['std::vector<generator>, std::vector<GenCallback> = three pointers over a typed static pool, no reallocation (pinned elements: obligation), elements built and destroyed by the real translated functions (lib/model_vec_pool.c)',
+                  'std::queue<GenCallback*> = bounded FIFO ring, accesses under the queue mutex (lib/model_ptrq_ring.c, lib/model_mutex.c); single_item_queue<promise<GenCallback*>> = always empty, parking is a failed obligation (specs/C14/drive_models.h)',
+                  'std::atomic<T*> members read sequentially at member-function level (lib/model_atomic_ptr_api.c); std::deque<coroutine_handle<>> = FIFO ring (lib/model_dq_drive.c); operator new/delete with typed coroutine frames (lib/model_heap_frames.c)',
+                  'contract units: queue::push / queue::pop / future::wait / ~future / next_awt::subscribe / suspend_now as recording stubs (specs/C14/a_spec.h)'],
+    assumptions=['bounded: <= 3 synchronous sources, <= 2 values each, at most one throwing source, <= 5 consumer steps; single thread; sampled shapes for 3 sources',
+                 'observed values are attributed to yields by a tag in the top byte (low 24 bits symbolic)',
+                 'ctl_dtor: the controller counter equals the number of active sources (that is the body\'s bookkeeping, exercised only by the drives)'],
+    explanation='see level_text')
